@@ -159,6 +159,8 @@ class FunctionExtractor:
         self.cpp_rel = cpp_rel
         self.qual = qualname
         self.rules = []
+        self.loop_shape = []
+        self._depth = 0
         self.nonstatic_locals = set()
         self._skip = False
         self.nloops = 0
@@ -311,7 +313,7 @@ class FunctionExtractor:
             'byte_range': [fb, fe], 'line': sline,
             'sha256_source': hashlib.sha256(real.encode('latin-1' if self.latin else 'utf-8')).hexdigest(),
             'sha256_extracted': hashlib.sha256(text.encode('utf-8')).hexdigest(),
-            'rules': sorted(set(self.rules)), 'loops': self.nloops, 'text': text,
+            'rules': sorted(set(self.rules)), 'loops': self.nloops, 'loop_shape': self.loop_shape, 'text': text,
         }
 
     def render(self, lo, hi):
@@ -398,6 +400,7 @@ class FunctionExtractor:
     def _loop(self, n, var, pos):
         k = self.nloops
         self.nloops += 1
+        self.loop_shape.append([n.get('kind'), self._depth])
         ln = _line_of(self.src, pos)
         self.ed.insert(pos, '\n#ifdef LOOP_%s_%d\nLOOP_%s_%d(%s)\n#endif\n#line %d\n' % (self.fname, k, self.fname, k, var, ln))
 
@@ -415,19 +418,25 @@ class FunctionExtractor:
                 var = lhs['referencedDecl']['name']
         body = inner[-1]
         self._loop(n, var, _off(body['range']['begin']))
+        self._depth += 1
         for c in inner:
             self.walk(c)
+        self._depth -= 1
 
     def v_WhileStmt(self, n):
         body = n['inner'][-1]
         self._loop(n, '', _off(body['range']['begin']))
+        self._depth += 1
         for c in n['inner']:
             self.walk(c)
+        self._depth -= 1
 
     def v_DoStmt(self, n):
         self._loop(n, '', _end(n['range']['end']))
+        self._depth += 1
         for c in n['inner']:
             self.walk(c)
+        self._depth -= 1
 
     def v_CXXFunctionalCastExpr(self, n):
         b = _off(n['range']['begin'])
